@@ -18,11 +18,12 @@
 //   - non-allow-all configuration: no-Origin, simple and preflight responses carry Vary: Origin
 //     (as a member of the Vary token set; order and other tokens are free).
 //   - every preflight: 204, handler not entered.
-//   - preflight of an origin that is granted access (ACAO expected and present): ACAM ==
-//     configured methods, ACAH == configured headers (when configured), ACMA per MaxAge (when
-//     != 0), private-network header iff configured and requested.
+//   - every preflight, granted or refused: ACAM == configured methods, ACAH == configured
+//     headers (when configured) - the statement's clause has no origin condition.
+//   - preflight of an origin that is granted access (ACAO expected and present): ACMA per MaxAge
+//     (when != 0), private-network header iff configured and requested.
 //   - NOT judged, only counted (info_* stats), because the statement does not fix them: what a
-//     refused origin's preflight carries besides "no ACAO" (methods, headers, max-age,
+//     refused origin's preflight carries besides "no ACAO", methods and headers (max-age,
 //     private-network), ACAC without/with configuration on its own, ACAC missing for a permitted
 //     origin, expose headers, Max-Age / private-network on non-preflight responses, whether a
 //     non-preflight request is passed on to the handler.
@@ -1166,15 +1167,23 @@ func checkResp(e *ev.Env, c *ev.Case, s *cfgSpec, all bool, qi int, q *reqSpec, 
 		}
 		pn := resp.All(hACAPN)
 		if !granted {
-			// refused (or unjudgeable) origin: presence/absence of the grant headers is not judged
+			// refused (or unjudgeable) origin. The statement's preflight clause has no origin
+			// condition ("preflight requests are answered with the configured methods/headers and
+			// 204 ..."), and the middleware does so for refused origins as well: methods and headers
+			// are judged here too. Max-Age and the private-network grant are judged for granted
+			// origins only (their presence/absence for a refused origin is counted).
 			stat(e, "preflight_not_granted", 1)
-			if resp.Get(hACAM) == wantM {
-				stat(e, "info_refused_preflight_with_allow_methods", 1)
+			if got := resp.Get(hACAM); got != wantM {
+				e.Violation(c, "preflight-methods-mismatch|refused-origin", "Access-Control-Allow-Methods of a preflight from a refused origin differs from the configured methods", detail(map[string]any{"want": wantM}))
 			} else {
-				stat(e, "info_refused_preflight_without_allow_methods", 1)
+				stat(e, "refused_preflight_with_configured_methods", 1)
 			}
-			if wantH != "" && resp.Get(hACAH) != wantH {
-				stat(e, "info_refused_preflight_without_allow_headers", 1)
+			if wantH != "" {
+				if got := resp.Get(hACAH); got != wantH {
+					e.Violation(c, "preflight-headers-mismatch|refused-origin", "Access-Control-Allow-Headers of a preflight from a refused origin differs from the configured headers", detail(map[string]any{"want": wantH}))
+				} else {
+					stat(e, "refused_preflight_with_configured_headers", 1)
+				}
 			}
 			if len(pn) > 0 {
 				stat(e, "info_refused_preflight_with_private_network_header", 1)
